@@ -36,6 +36,10 @@ THEOREMS = [
     'Tbox.C17.C17_exec_one_at_a_time', 'Tbox.C17.C17_exec_heads_only', 'Tbox.C17.C17_exec_highest_priority_first', 'Tbox.C17.Exec.sched_hp', 'Tbox.C17.C17_exec_callbacks_once', 'Tbox.C17.Exec.sched_li',
     'Tbox.C17.C17_run_ids_distinct', 'Tbox.C17.step_idsOk', 'Tbox.C17.C17_run_task_local',
     'Tbox.C17.C17_rerun_after_reset', 'Tbox.C17.C17_rerun_finishes_exactly_once', 'Tbox.C17.result_matches_from', 'Tbox.C17.finishes_once_from', 'Tbox.C17.Exec.sched_inv', 'Tbox.C17.Exec.xstep_inv',
+    # round 8: Parallel (all modes) over leaves in the whole-tree theorem; the batch invariant and its steps
+    'Tbox.C17.C17_result_matches_doc_par_leaves', 'Tbox.C17.C17_par_leaves_finishes_exactly_once', 'Tbox.C17.par_leaves_run',
+    'Tbox.C17.runTask_PI', 'Tbox.C17.fireOne_PI', 'Tbox.C17.step_PI', 'Tbox.C17.start_PI', 'Tbox.C17.run_PI',
+    'Tbox.C17.C17_timeout_result_depends_on_pass_granularity',
     # the inductive steps themselves
     'Tbox.C17.bstep_inv', 'Tbox.C17.step_wf', 'Tbox.C17.reachable_wf', 'Tbox.C17.seq_drive_aux',
 ]
@@ -65,7 +69,7 @@ ASSUMPTIONS = [
 ]
 RULE = ('(re-entrant control: one-shot scripts start/pause/resume/stop/reset attached to the final / finish / block callback of the root, exhaustively over small trees x scripts x one control call, and in random scripts) random action trees (depth <= 4, <= 40 nodes, all 10 composites and all their modes, leaves Function succ/fail(+case tag), Sleep, Dummy, '
         'timeouts on any node) driven by op scripts: start, then passes / clock steps / control calls (single, paired, deferred with runNext) and '
-        'emits on dummy leaves; plus exhaustive placement of one (thorough: two) control calls over all passes of small trees; non-trivial = the root '
+        'emits on dummy leaves; plus exhaustive placement of one (thorough: two) control calls over all passes of small trees; plus Parallel trees with pause at pass i and resume / resume+pause / stop / reset start at every pass j >= i (tags par+pause par+resume par+stop par+reset par-paused), timeouts expiring in the same pass as a child finishes next to the schedules where they do not (tag tmo-race), control-free Parallel-over-leaves runs of 0-8 children; non-trivial = the root '
         'delivered a finish or block notification on a tree of >= 3 nodes, or a result was held back / replayed, or a timeout fired; distinct = distinct op text')
 
 HEADS = ['seq:all', 'seq:anyf', 'seq:anys', 'par:all', 'par:anyf', 'par:anys', 'ife:tt', 'ife:tf', 'ife:ft', 'ift', 'sw:d', 'sw:n',
@@ -295,8 +299,60 @@ def gen_free_random(rng):
     return ops
 
 
+PAR_TREES = ['( par:all Fs Fs )', '( par:all Fs Z0 Ff )', '( par:anys Ff Z0 Fs )', '( par:anys Ff Z0 Z1 )', '( par:anyf Z0 Ff )', '( par:anyf Fs Z0 Z1 )',
+             '( par:all Z0 Z1 )', '( par:all ( seq:all Fs Z0 ) ( seq:all Z0 Fs ) )', '( seq:all ( par:anys Z0 Z1 ) Fs )', '( par:all D Z0 )',
+             '( par:anyf D Z0 Fs )', '( par:all ( par:anys Z0 Z1 ) Z0 )']
+RACE_TREES = ['( seq:all@2 Z1 Fs )', '( par:all@2 Z1 Z0 )', '( par:anys@1 Z0 D )', '( cmp@2 ( seq:all Z0 Z1 ) )', '( ife:tt@1 Z0 Fs Ff )',
+              '( wr:i@2 Z1 )', '( seq:all ( par:all@2 Z1 Z1 ) Fs )', '( loop:uf@3 Z0 )', '( rep:3:nb@2 Z0 )', '( par:anyf@3 Z1@0 Z2 )',
+              '( seq:all@1 ( par:all Z0 Z0 ) Fs )', '( sw:d@1 Fs:0 Z0 Fs )', '( seq:anyf@3 Z1 ( cmp@0 Z2 ) Fs )']
+RACE_SCHEDULES = [['adv 3'], ['adv 2'], ['adv 1', 'adv 1', 'adv 1'], ['adv 1', 'pass', 'adv 1', 'pass', 'pass', 'adv 1'], ['adv 2', 'adv 1'],
+                  ['adv 1', 'adv 2'], ['adv 1', 'do pause', 'adv 2', 'do resume'], ['do pause', 'adv 3', 'do resume', 'adv 3'],
+                  ['adv 1', 'do pause resume', 'adv 2'], ['adv 2', 'do stop'], ['adv 2', 'do reset start', 'adv 3'], ['adv 4']]
+
+
+def gen_par_ctl(quick):
+    """Parallel + pause / resume / stop / reset at every pass (resume at every later pass; resume+pause within one pass)"""
+    L = 6
+    for tree in PAR_TREES:
+        for i in range(L):
+            for j in range(i, L):
+                for second in ('do resume', 'do resume pause', 'do stop', 'do reset start'):
+                    if quick and second != 'do resume' and (i + j) % 2:
+                        continue
+                    ops = ['tree ' + tree, 'do start']
+                    for k in range(L):
+                        if k == i: ops.append('do pause')
+                        if k == j: ops.append(second)
+                        ops.append('adv 1' if k in (2, 4) else 'pass')
+                    ops += ['do resume', 'pass', 'adv 3', 'pass', 'pass', 'pass']
+                    yield ops
+
+
+def gen_tmo_race():
+    """timeouts expiring in the same pass as a child's finish notification, next to the schedules where they do not"""
+    for tree in RACE_TREES:
+        for sch in RACE_SCHEDULES:
+            yield ['tree ' + tree, 'do start'] + sch + ['pass', 'pass', 'adv 2', 'pass', 'pass', 'pass']
+            yield ['tree ' + tree, 'do start', 'pass'] + sch + ['pass', 'adv 1', 'pass', 'adv 3', 'pass', 'pass']
+
+
+def gen_plain_par(rng):
+    """control-free runs of Parallel over leaves (the class of C17_result_matches_doc_par_leaves), any schedule"""
+    n = rng.choice([0, 1, 2, 3, 5, 8])
+    kids = [rng.choice(['Fs', 'Ff', 'Fs:1', 'Z0', 'Z1', 'Z2', 'Z3']) for _ in range(n)]
+    ops = ['tree ( par:%s %s )' % (rng.choice(['all', 'anyf', 'anys']), ' '.join(kids)), 'do start']
+    for _ in range(rng.choice([4, 8, 14])):
+        ops.append('pass' if rng.random() < 0.6 else 'adv %d' % rng.choice([1, 1, 2, 4]))
+    ops += ['adv 4', 'adv 4', 'adv 4']
+    return ops
+
+
 def gen(rng, tier):
     quick = tier == 'quick'
+    yield from gen_par_ctl(quick)
+    yield from gen_tmo_race()
+    for _ in range(60 if quick else 600):
+        yield gen_plain_par(rng)
     # malformed stream: both sides must answer bad-op
     yield ['do start', 'tree', 'tree (', 'tree ( seq:all Fs', 'tree ( seq:bad Fs )', 'tree Fs Fs', 'tree ( ife:tt Fs Fs )', 'tree ( ift Fs )',
            'tree ( loop:fe )', 'tree Z51', 'tree Fs@51', 'tree ( rep:1001:nb Fs )', 'tree ( ife:ff Fs )', 'tree ( sw:n Fs )', 'tree )',
@@ -400,7 +456,7 @@ def nontrivial(ops, model_lines):
     for l in model_lines:
         if l.startswith('B '):
             tags.update(l[2:].split())
-    if tags & {'held-back', 'held-back-par', 'replay-queued', 'tmo-node-failed', 'root-blk'}:
+    if tags & {'held-back', 'held-back-par', 'replay-queued', 'tmo-node-failed', 'root-blk', 'tmo-race', 'par-paused'}:
         return 1
     if 'x-xapp' in tags and sum(1 for l in model_lines if l.startswith('P e xfinished')) >= 2:
         return 1
@@ -442,7 +498,7 @@ LEVEL_TEXT = ('Lean 4 theorems over an executable model of the action framework.
               'evaluates WF and the documented result (reference evaluator, all composites) on every visited state')
 LEVEL_NOTE = ('whole-tree "root result = documented meaning, exactly one finish notification, leaves called in the documented order" is PROVED through '
               'the deferred queue for trees of Sequence/IfElse/IfThen/Switch/Wrapper/Composite/Loop/LoopIf/Repeat(n>=1) over Function and Sleep leaves (C17_result_matches_doc_serial, '
-              'safety for every pass/clock sequence; C17_finishes_exactly_once, liveness: after cost(t)+1 big clock steps / passes in any fair schedule the trace IS the complete visit order + one finish, when the evaluator terminates; C17_loop_never_finishes: otherwise no finish notification ever; C17_skeleton_preserved for every op sequence); OPEN: order of the calls of a non-terminating loop, Parallel, timeouts (compared with the evaluator on '
+              'safety for every pass/clock sequence; C17_finishes_exactly_once, liveness: after cost(t)+1 big clock steps / passes in any fair schedule the trace IS the complete visit order + one finish, when the evaluator terminates; C17_loop_never_finishes: otherwise no finish notification ever; C17_skeleton_preserved for every op sequence), and for ParallelAction (all three modes, any number of children) over Function and Sleep leaves as the root (C17_result_matches_doc_par_leaves: all children called in child order inside start(), then none or exactly one finish (true,0) for every pass/clock sequence; C17_par_leaves_finishes_exactly_once: three big ops suffice, root Finished, nothing left Running/Pause; batch invariant PI kept by every runTask/fireOne in any order); OPEN: order of the calls of a non-terminating loop, Parallel nested below serial composites or over composite children, timeouts (C17_timeout_result_depends_on_pass_granularity: the result of a tree with a timeout depends on whether a loop pass runs between two deadlines, so the statement needs a schedule hypothesis) (all compared with the evaluator on '
               'every control-free generated run for all composites); trace equivalence '
               'of a reset tree with a fresh one in general (proved: Clean + WF after reset, and C17_rerun_after_reset: covered class, second run without control calls, after any history); ActionExecutor: one-at-a-time, heads-only, highest-priority-first and callbacks-once proved; trusted: Lean kernel, '
               'hand-written model, harness, generator coverage (measured)')
